@@ -258,6 +258,10 @@ func FormatEvent(kind byte, id, line, col, off int, text []byte, labels, state, 
 
 // NodeValue is what an action with R=0 returns.
 func NodeValue(id int, text []byte, labels string) string {
+	if len(labels) > 160 {
+		// nested node values quote each other: without a cap their length doubles per nesting level
+		labels = "#" + strconv.Itoa(LabelCoin(labels)) + ":" + strconv.Itoa(len(labels))
+	}
 	return "A" + strconv.Itoa(id) + "(" + strconv.Quote(string(text)) + "|" + labels + ")"
 }
 
